@@ -196,14 +196,15 @@ theorem consistent_after (u u' : NodeRes) (live live' ws : List WorkloadRes) (in
   · rw [d, c4, hl]
 
 /-- every operation of a history preserves the invariant, for any scheduler returning Go maps -/
-theorem step_inv (sched : Sched) (hs : SchedWF sched) (s : State) (h : Inv s) (op : Op) : Inv (step sched s op).1 := by
-  cases op with
+theorem step_inv_cap (sched : Sched) (hs : SchedWF sched) (s : State) (h : Inv s) (op : Op) :
+    Inv (step sched s op).1 ∧ (step sched s op).1.node.capacity = s.node.capacity := by
+  induction op with
   | alloc k req =>
     simp only [step]
     cases ha : alloc sched [] s.node k req with
-    | err e => exact inv_clear_undo s h
-    | panic m => exact inv_clear_undo s h
-    | diverge => exact inv_clear_undo s h
+    | err e => exact ⟨inv_clear_undo s h, rfl⟩
+    | panic m => exact ⟨inv_clear_undo s h, rfl⟩
+    | diverge => exact ⟨inv_clear_undo s h, rfl⟩
     | ok r =>
       obtain ⟨ws, n'⟩ := r
       simp only
@@ -228,8 +229,8 @@ theorem step_inv (sched : Sched) (hs : SchedWF sched) (s : State) (h : Inv s) (o
               obtain ⟨e1, e2⟩ := ha
               subst e1; subst e2
               have hww := calculateDeploy_wfw sched hs s.node k req ws' hcd
-              obtain ⟨_, hw', hv', a, b, c, d, _⟩ := set_usage_spec s.node n'' h.wf ws' hww true hset
-              refine ⟨hw', hv', ?_, ?_, fun _ hu => by cases hu⟩
+              obtain ⟨hcp, hw', hv', a, b, c, d, _⟩ := set_usage_spec s.node n'' h.wf ws' hww true hset
+              refine ⟨⟨hw', hv', ?_, ?_, fun _ hu => by cases hu⟩, hcp⟩
               · intro w hw
                 rcases List.mem_append.1 hw with h1 | h1
                 · exact h.wfl w h1
@@ -239,25 +240,25 @@ theorem step_inv (sched : Sched) (hs : SchedWF sched) (s : State) (h : Inv s) (o
   | drop idxs =>
     simp only [step]
     cases hr : release s.node (pickIdxs s.live idxs) with
-    | error e => exact inv_clear_undo s h
+    | error e => exact ⟨inv_clear_undo s h, rfl⟩
     | ok n' =>
       simp only
       have hww : ∀ w ∈ pickIdxs s.live idxs, WFW w := fun w hw => h.wfl w (mem_pick _ _ _ hw)
-      obtain ⟨_, hw', hv', a, b, c, d, _⟩ := set_usage_spec s.node n' h.wf _ hww false hr
-      refine ⟨hw', hv', fun w hw => h.wfl w (mem_remove _ _ _ hw), ?_, fun _ hu => by cases hu⟩
+      obtain ⟨hcp, hw', hv', a, b, c, d, _⟩ := set_usage_spec s.node n' h.wf _ hww false hr
+      refine ⟨⟨hw', hv', fun w hw => h.wfl w (mem_remove _ _ _ hw), ?_, fun _ hu => by cases hu⟩, hcp⟩
       exact consistent_after _ _ s.live _ (pickIdxs s.live idxs) false h.cons a b c d
         (fun f => by have := sumBy_pick_remove s.live idxs f; simp only [sg, Bool.false_eq_true, if_false]; omega)
   | realloc i req =>
     simp only [step]
     cases hl : s.live[i]? with
-    | none => exact inv_clear_undo s h
+    | none => exact ⟨inv_clear_undo s h, rfl⟩
     | some origin =>
       simp only
       have ho : WFW origin := h.wfl origin (List.mem_of_getElem? hl)
       cases hr : realloc sched s.node origin req with
-      | err e => exact inv_clear_undo s h
-      | panic m => exact inv_clear_undo s h
-      | diverge => exact inv_clear_undo s h
+      | err e => exact ⟨inv_clear_undo s h, rfl⟩
+      | panic m => exact ⟨inv_clear_undo s h, rfl⟩
+      | diverge => exact ⟨inv_clear_undo s h, rfl⟩
       | ok r =>
         obtain ⟨newRes, delta, n'⟩ := r
         simp only
@@ -279,10 +280,10 @@ theorem step_inv (sched : Sched) (hs : SchedWF sched) (s : State) (h : Inv s) (o
             subst e1; subst e2; subst e3
             obtain ⟨hnw, hdel, hdw⟩ := calculateRealloc_spec sched hs s.node origin ho req new' delta' hc
             have hww : ∀ w ∈ [delta'], WFW w := by intro w hw; simp only [List.mem_singleton] at hw; subst hw; exact hdw
-            obtain ⟨_, hw', hv', a, b, c, d, _⟩ := set_usage_spec s.node n'' h.wf _ hww true hset
+            obtain ⟨hcp, hw', hv', a, b, c, d, _⟩ := set_usage_spec s.node n'' h.wf _ hww true hset
             have hi : i < s.live.length := by
               rcases List.getElem?_eq_some_iff.1 hl with ⟨hlt, _⟩; exact hlt
-            refine ⟨hw', hv', ?_, ?_, ?_⟩
+            refine ⟨⟨hw', hv', ?_, ?_, ?_⟩, hcp⟩
             · intro w hw
               rcases List.mem_or_eq_of_mem_set hw with h1 | h1
               · exact h.wfl w h1
@@ -301,17 +302,17 @@ theorem step_inv (sched : Sched) (hs : SchedWF sched) (s : State) (h : Inv s) (o
   | rollbackRealloc =>
     simp only [step]
     cases hu : s.undo with
-    | none => simp only; exact h
+    | none => simp only; exact ⟨h, trivial⟩
     | some u =>
       simp only
       obtain ⟨⟨new, hcur, hdel⟩, huo, hud⟩ := h.undo u hu
       cases hr : rollbackRealloc s.node u.delta with
-      | error e => exact inv_clear_undo s h
+      | error e => exact ⟨inv_clear_undo s h, rfl⟩
       | ok n' =>
         simp only
         have hww : ∀ w ∈ [u.delta], WFW w := by intro w hw; simp only [List.mem_singleton] at hw; subst hw; exact hud
-        obtain ⟨_, hw', hv', a, b, c, d, _⟩ := set_usage_spec s.node n' h.wf _ hww false hr
-        refine ⟨hw', hv', ?_, ?_, fun _ hu' => by cases hu'⟩
+        obtain ⟨hcp, hw', hv', a, b, c, d, _⟩ := set_usage_spec s.node n' h.wf _ hww false hr
+        refine ⟨⟨hw', hv', ?_, ?_, fun _ hu' => by cases hu'⟩, hcp⟩
         · intro w hw
           rcases List.mem_or_eq_of_mem_set hw with h1 | h1
           · exact h.wfl w h1
@@ -323,6 +324,95 @@ theorem step_inv (sched : Sched) (hs : SchedWF sched) (s : State) (h : Inv s) (o
           · rw [b, c2, sumBy_set _ _ _ _ _ hcur, hdel.mem]; omega
           · rw [c, c3, sumBy_set _ _ _ _ _ hcur, hdel.cm]; omega
           · rw [d, c4, sumBy_set _ _ _ _ _ hcur, hdel.nm]; omega
+
+  | failing op ih =>
+    simp only [step]
+    obtain ⟨hinv, hcap⟩ := ih
+    cases hst : step sched s op with
+    | mk s1 ok =>
+      rw [hst] at hinv hcap
+      simp only at hinv hcap ⊢
+      cases ok with
+      | false => simp only [Bool.false_eq_true, if_false]; exact ⟨hinv, hcap⟩
+      | true =>
+        simp only [if_true]
+        obtain ⟨r1, r2, r3, r4⟩ := rollbackUsage_spec s.node s1.node h.wf h.valid hinv.wf hcap
+        refine ⟨⟨r1, r2, h.wfl, ?_, fun _ hu => by cases hu⟩, r4⟩
+        obtain ⟨c1, c2, c3, c4⟩ := h.cons
+        exact ⟨by rw [r3.1]; exact c1, by rw [r3.2.1]; exact c2, fun k => by rw [r3.2.2.1 k]; exact c3 k,
+          fun k => by rw [r3.2.2.2 k]; exact c4 k⟩
+
+theorem step_inv (sched : Sched) (hs : SchedWF sched) (s : State) (h : Inv s) (op : Op) : Inv (step sched s op).1 :=
+  (step_inv_cap sched hs s h op).1
+
+theorem usageEq_refl (u : NodeRes) : UsageEq u u := ⟨rfl, rfl, fun _ => rfl, fun _ => rfl⟩
+
+/-- Any operation that does not succeed — refused, invalid, failing validation, or failing
+    because *another plugin* fails in the commit (cobalt then rolls cpumem back) — leaves the
+    cpumem usage as it was and the live set unchanged. -/
+theorem failed_step_unchanged (sched : Sched) (hs : SchedWF sched) (s : State) (h : Inv s) (op : Op)
+    (hf : (step sched s op).2 = false) :
+    UsageEq (step sched s op).1.node.usage s.node.usage ∧ (step sched s op).1.live = s.live := by
+  induction op with
+  | alloc k req =>
+    simp only [step] at hf ⊢
+    cases hh : alloc sched [] s.node k req with
+    | ok r => rw [hh] at hf; cases hf
+    | err e => exact ⟨usageEq_refl _, rfl⟩
+    | panic m => exact ⟨usageEq_refl _, rfl⟩
+    | diverge => exact ⟨usageEq_refl _, rfl⟩
+  | drop idxs =>
+    simp only [step] at hf ⊢
+    cases hh : release s.node (pickIdxs s.live idxs) with
+    | ok n' => rw [hh] at hf; cases hf
+    | error e => exact ⟨usageEq_refl _, rfl⟩
+  | realloc i req =>
+    simp only [step] at hf ⊢
+    cases hl : s.live[i]? with
+    | none => exact ⟨usageEq_refl _, rfl⟩
+    | some origin =>
+      rw [hl] at hf
+      simp only at hf ⊢
+      cases hh : realloc sched s.node origin req with
+      | ok r => rw [hh] at hf; cases hf
+      | err e => exact ⟨usageEq_refl _, rfl⟩
+      | panic m => exact ⟨usageEq_refl _, rfl⟩
+      | diverge => exact ⟨usageEq_refl _, rfl⟩
+  | rollbackRealloc =>
+    simp only [step] at hf ⊢
+    cases hu : s.undo with
+    | none => exact ⟨usageEq_refl _, rfl⟩
+    | some u =>
+      rw [hu] at hf
+      simp only at hf ⊢
+      cases hh : rollbackRealloc s.node u.delta with
+      | ok n' => rw [hh] at hf; cases hf
+      | error e => exact ⟨usageEq_refl _, rfl⟩
+  | failing op' ih =>
+    have ⟨hinv, hcap⟩ := step_inv_cap sched hs s h op'
+    simp only [step]
+    cases hst : step sched s op' with
+    | mk s1 ok =>
+      rw [hst] at hinv hcap ih
+      simp only at hinv hcap ih ⊢
+      cases ok with
+      | true =>
+        simp only [if_true]
+        exact ⟨(rollbackUsage_spec s.node s1.node h.wf h.valid hinv.wf hcap).2.2.1, trivial⟩
+      | false =>
+        simp only [Bool.false_eq_true, if_false]
+        exact ih rfl
+
+/-- A commit in which another plugin fails never succeeds and leaves the cpumem usage as it was
+    (cobalt's per-plugin rollback with the reported `Before`), whatever the operation. -/
+theorem failing_step_restores (sched : Sched) (hs : SchedWF sched) (s : State) (h : Inv s) (op : Op) :
+    (step sched s (.failing op)).2 = false ∧
+    UsageEq (step sched s (.failing op)).1.node.usage s.node.usage ∧ (step sched s (.failing op)).1.live = s.live := by
+  have hf : (step sched s (.failing op)).2 = false := by
+    simp only [step]
+    cases step sched s op with
+    | mk s1 ok => cases ok <;> rfl
+  exact ⟨hf, failed_step_unchanged sched hs s h (.failing op) hf⟩
 
 theorem run_inv (sched : Sched) (hs : SchedWF sched) (ops : List Op) (s : State) (h : Inv s) : Inv (run sched s ops) := by
   induction ops generalizing s with
